@@ -1,5 +1,6 @@
 /- Driver ops for SFModel.Level (IndexLevel tree, HLoc resolution, IndexHierarchyGO state machine). -/
 import SFModel.Level
+import SFModel.LevelDrop
 import SFModel.Drv.Index
 
 namespace SF.Drv
@@ -54,6 +55,11 @@ private def ofObs : HObs Lab → SExp
   | .column c => .list [.atom "col", ofLabs c]
   | .bool b => .list [.atom "bool", ofBool b]
 
+/-- the answer of `level_drop`: a tree, or the flat label list when a single depth is left -/
+private def ofDropped : Level Lab → SExp
+  | .leaf ls _ => ofLabs ls
+  | t => ofLevel t
+
 private def optTuples (r : Option (List (List Lab))) : Except Err SExp :=
   match r with
   | none => .error .other
@@ -86,6 +92,12 @@ def levelOps : List SExp → Option String
       let t ← level? t; let o ← level? o
       let r := t.extend o
       pure (answer (.ok (.list [ofLevel r.1, match r.2 with | none => .atom "N" | some e => .atom e.toString])))
+  | [.atom "level.dropinner", t, k] => do
+      let t ← level? t; let k ← nat? k
+      pure (answer ((t.levelDropInner k).map ofDropped))
+  | [.atom "level.dropouter", t, k] => do
+      let t ← level? t; let k ← nat? k
+      pure (answer ((t.levelDropOuter k).map ofDropped))
   | [.atom "hstate.run", t, depth, .list ops] => do
       let t ← level? t; let depth ← nat? depth; let ops ← ops.mapM hop?
       let r := (HState.ofLevel t depth).run ops
